@@ -65,8 +65,12 @@ func (f *Filter) IsAllowed(res Resource) bool {
 		// typ string
 	)
 
-	if _, ok := res.Attrs()[f.Field]; ok {
+	if attr, ok := res.Attrs()[f.Field]; ok {
 		val = res.Get(f.Field)
+		if val == nil {
+			// Some implementations return an untyped nil for null values.
+			val = GetZeroValue(attr.Type, attr.Nullable)
+		}
 	}
 
 	if rel, ok := res.Rels()[f.Field]; ok {
